@@ -66,6 +66,12 @@ unsigned long vrt_note_inc(int i);
 void vrt_quiet_begin(void);
 void vrt_quiet_end(void);
 
+/* explicit-state pruning for operation-sequence enumeration (E2): 'key' is a canonical hash of the
+ * state reached, 'remaining' the number of further steps this execution would still take.  Returns 1
+ * (and ends the execution with verdict ok) if the state was already expanded by another path with at
+ * least that many remaining steps; otherwise records it and returns 0. */
+int vrt_state_seen(unsigned long key, int remaining);
+
 /* ---- histories and linearizability (vrt_hist.c, uninstrumented) ---------------------------- */
 #define VRT_HIST_MAX 24
 struct vrt_hop {
